@@ -25,7 +25,7 @@ OUTSIDE = ('functions with more named parameters than the bound; calls passing a
            'alongside **kwargs (excluded by the property)')
 ASSUMPTIONS = ['keyword-only order is compared within the native group and within the converted group (DESIGN.md C12)']
 
-FORMS = ('kwoargs', 'posoargs', 'both', 'start', 'end', 'auto')
+FORMS = ('kwoargs', 'posoargs', 'both', 'start', 'end', 'auto', 'names+start', 'names+end')
 
 
 def _draw_subset(names, tag):
@@ -69,6 +69,8 @@ def _draw_decoration(spec, forms=FORMS):
     cand = names + ([spec.stars[0]] if spec.va else []) + ([spec.stars[1]] if spec.vk else []) + [FOREIGN_NAME]
     if form in ('start', 'end'):
         return form, dict(name=cand[sym.pick(len(cand), 'nm')])
+    if form in ('names+start', 'names+end'):    # explicit names together with start= / end=
+        return form, dict(name=cand[sym.pick(len(cand), 'nm')], names=_draw_subset(names + [FOREIGN_NAME], 'xn'))
     return form, dict(exceptions=_draw_subset(cand, 'ex'), direct=sym.flip('direct'))
 
 
@@ -86,16 +88,20 @@ def _expected1(spec, form, a):
     kinds = dict(zip(spec.names, spec.kinds))
     hasdef = dict(zip(spec.names, spec.defaults))
     poks = [nm for nm in spec.names if kinds[nm] == 1]
-    if form == 'start':
+    if form in ('start', 'names+start'):
         if a['name'] not in poks:
             return None
         i = poks.index(a['name'])
-        kwo = set(poks[i:]); po = set()
-    elif form == 'end':
+        kwo = set(poks[i:]) | set(a.get('names', ())); po = set()
+        if any(kinds.get(nm) not in (1, 2) for nm in a.get('names', ())):
+            return None
+    elif form in ('end', 'names+end'):
         if a['name'] not in poks:
             return None
         i = poks.index(a['name'])
-        po = set(poks[:i + 1]); kwo = set()
+        po = set(poks[:i + 1]) | set(a.get('names', ())); kwo = set()
+        if any(kinds.get(nm) not in (0, 1) for nm in a.get('names', ())):
+            return None
     elif form == 'auto':
         defaulted = [nm for nm in poks if hasdef[nm]]
         if not set(a['exceptions']) <= set(defaulted):
@@ -139,6 +145,10 @@ def _decorate(fn, form, a):
         return modifiers.kwoargs(start=a['name'])(fn)
     if form == 'end':
         return modifiers.posoargs(end=a['name'])(fn)
+    if form == 'names+start':
+        return modifiers.kwoargs(*a['names'], start=a['name'])(fn)
+    if form == 'names+end':
+        return modifiers.posoargs(*a['names'], end=a['name'])(fn)
     if a['direct'] and not a['exceptions']:
         return modifiers.autokwoargs(fn)
     return modifiers.autokwoargs(exceptions=a['exceptions'])(fn)
@@ -308,7 +318,7 @@ def h_call(ctx, cfg):
     except ValueError as e:
         ctx.require('bound-access', False, lambda: dict(
             exc=repr(e), first_parameter_selected_positional_only=(
-                first[0] in a.get('po', ()) or (form == 'end' and a['name'] == first[0]))))
+                first[0] in a.get('po', ()) or first[0] in a.get('names', ()) or (form in ('end', 'names+end') and a['name'] == first[0]))))
         return
     got, gerr = _call(inst.m, avals, kvals)
     want, werr = _call(inst.n, avals, kvals)
